@@ -354,6 +354,23 @@ fn c08_cases() -> Vec<(String, Option<Vec<&'static str>>, String)> {
     v.push((cd.into(), None, "cmd <A> | <B>;\n<A> ::= x \"d1\" p;\n<B> ::= x q;\n".into()));
     v.push((cd.into(), None, "cmd --a=(b|c) (x \"d1\" | x \"d2\");\n".into()));
     v.push(("".into(), None, "cmd (x \"d1\" | x \"d1\" y) | z (x \"d2\");\n".into()));
+    // the clashing pair at every offset among the other literals expected at that point
+    // (the check sorts the expected items and compares neighbours)
+    for before in 0..5usize {
+        for after in 0..3usize {
+            let mut alts: Vec<String> = (0..before).map(|k| format!("b{k} w")).collect();
+            alts.push("m \"first\" p".into());
+            alts.push("m \"second\" q".into());
+            alts.extend((0..after).map(|k| format!("z{k}")));
+            v.push((cd.into(), None, format!("cmd ({});\n", alts.join(" | "))));
+            // same, the clash sitting in a later `||` branch
+            v.push((cd.into(), None, format!("cmd (k0 || {});\n", alts.join(" | "))));
+            // look-alike: same literal, same description twice
+            let mut ok = alts.clone();
+            ok[before + 1] = "m \"first\" q".into();
+            v.push(("".into(), None, format!("cmd ({});\n", ok.join(" | "))));
+        }
+    }
     // clean grammars of every construct
     v.push(("".into(), None, "cmd [--help] (start | stop \"halt\") <PATH>... || --level=(1|2|3) <U> {{{ echo a }}};\ncmd sub <X>;\n<X> ::= a | b <Y>;\n<Y> ::= {{{ ls }}};\n<Y@zsh> ::= {{{ _files }}};\n".into()));
     v
